@@ -552,6 +552,8 @@ Definition define_step (creator : key) (label : str) (inp env out vol : list str
   if negb (is_some (find_node creator s)) then Internal 121          (* creator must be a node *)
   else if key_eqb creator root_key && root_has_step s then Usage 207 (* Boot step already defined *)
   else if key_eqb creator (KStep, label) then Usage 211              (* a step cannot define itself *)
+  else if mem_key creator (rec_products (KStep, label) s) then Usage 212
+    (* ... nor one of its own (indirect) creators: the label is on the creator chain of the creator *)
   else
   let k := (KStep, label) in
   match find_node k s with
